@@ -307,7 +307,7 @@ func extractC20Handlers(cfg *packages.Config, repo, out string) error {
 		}
 		return seen
 	}
-	var blockRoots, txRoots, allRoots []int
+	var blockRoots, txRoots, allRoots, queryRoots []int
 	bridgeRoot := func(n *hNode) bool {
 		for _, m := range []string{"x/crosschain/", "x/tron/", "x/erc20/", "x/ibc/", "x/migrate/", "x/staking/", "x/eth/", "x/bsc/", "x/gov/", "x/evm/"} {
 			if strings.HasPrefix(n.name, m) {
@@ -325,17 +325,33 @@ func extractC20Handlers(cfg *packages.Config, repo, out string) error {
 				txRoots = append(txRoots, n.id)
 			}
 		}
-		if n.kind == "block" || n.kind == "tx" || n.kind == "precompile" || n.kind == "ibc" {
+		if n.kind == "block" || n.kind == "tx" || n.kind == "precompile" || n.kind == "ibc" || n.kind == "query" {
 			allRoots = append(allRoots, n.id)
 		}
+		if n.kind == "query" {
+			queryRoots = append(queryRoots, n.id)
+		}
 	}
+	queryReach := reach(queryRoots, false)
 	blockReach := reach(blockRoots, false)
 	txReach := reach(txRoots, false)
 	ungated := reach(txRoots, true)
 	// sites
-	var sites []hSite
+	var sites, qsites []hSite
+	panicHosts := map[int]bool{} // every function of the module with an explicit panic(…), reachable or not
 	for _, n := range nodes {
-		if !txReach[n.id] {
+		if !txReach[n.id] && !queryReach[n.id] {
+			// still record whether it hosts an explicit panic
+			ast.Inspect(n.fd.Body, func(x ast.Node) bool {
+				if ce, ok := x.(*ast.CallExpr); ok {
+					if id, ok := ce.Fun.(*ast.Ident); ok && id.Name == "panic" {
+						if _, isB := n.p.TypesInfo.Uses[id].(*types.Builtin); isB {
+							panicHosts[n.id] = true
+						}
+					}
+				}
+				return true
+			})
 			continue
 		}
 		info := n.p.TypesInfo
@@ -396,24 +412,298 @@ func extractC20Handlers(cfg *packages.Config, repo, out string) error {
 				}
 				s.Arg = hMustClass(n.p.Fset, ce, rn)
 			}
-			sites = append(sites, s)
+			if kind == "panic" {
+				panicHosts[n.id] = true
+			}
+			if txReach[n.id] {
+				sites = append(sites, s)
+			}
+			if queryReach[n.id] {
+				qsites = append(qsites, s)
+			}
 			return true
 		})
 	}
-	sort.SliceStable(sites, func(i, j int) bool {
-		a, b := sites[i], sites[j]
-		if a.Func != b.Func {
-			return a.Func < b.Func
+	for _, ss := range [][]hSite{sites, qsites} {
+		ss := ss
+		sort.SliceStable(ss, func(i, j int) bool {
+			a, b := ss[i], ss[j]
+			if a.Func != b.Func {
+				return a.Func < b.Func
+			}
+			if a.Kind != b.Kind {
+				return a.Kind < b.Kind
+			}
+			return a.Expr < b.Expr
+		})
+	}
+	// ---- caller-side guards of the explicit panics a query can reach ----
+	// A panic of the shape `if !recv.M(param) { panic(…) }` inside a function H is avoided by callers that test `M` on the same
+	// argument first and return (`if !x.M(a) { return … }; … x.H(a)`): two cooperating sites.  For every call of such an H from
+	// a function a gRPC query method reaches, record whether that dominating test is there (top-level statement of the caller,
+	// in front of the call, body ends in a return, same argument text).
+	type qCall struct {
+		Caller, Callee int
+		CallerName     string
+		CalleeName     string
+		Guard, Arg     string
+		Guarded        bool
+		Where          string
+	}
+	var qcalls []qCall
+	type hostGuard struct {
+		meth string
+		idx  int
+	}
+	hostGuards := map[int]hostGuard{}
+	for _, n := range nodes {
+		if !queryReach[n.id] || !panicHosts[n.id] {
+			continue
 		}
-		if a.Kind != b.Kind {
-			return a.Kind < b.Kind
+		params := []string{}
+		for _, f := range n.fd.Type.Params.List {
+			for _, nm := range f.Names {
+				params = append(params, nm.Name)
+			}
 		}
-		return a.Expr < b.Expr
+		ast.Inspect(n.fd.Body, func(x ast.Node) bool {
+			is, ok := x.(*ast.IfStmt)
+			if !ok || is.Init != nil {
+				return true
+			}
+			hasPanic := false
+			for _, st := range is.Body.List {
+				if es, ok := st.(*ast.ExprStmt); ok {
+					if ce, ok := es.X.(*ast.CallExpr); ok {
+						if id, ok := ce.Fun.(*ast.Ident); ok && id.Name == "panic" {
+							hasPanic = true
+						}
+					}
+				}
+			}
+			if !hasPanic {
+				return true
+			}
+			if ue, ok := is.Cond.(*ast.UnaryExpr); ok && ue.Op == token.NOT {
+				if ce, ok := ue.X.(*ast.CallExpr); ok && len(ce.Args) == 1 {
+					if sel, ok := ce.Fun.(*ast.SelectorExpr); ok {
+						if a, ok := ce.Args[0].(*ast.Ident); ok {
+							for i, pn := range params {
+								if pn == a.Name {
+									hostGuards[n.id] = hostGuard{sel.Sel.Name, i}
+								}
+							}
+						}
+					}
+				}
+			}
+			return true
+		})
+	}
+	for _, n := range nodes {
+		if !queryReach[n.id] {
+			continue
+		}
+		info := n.p.TypesInfo
+		ast.Inspect(n.fd.Body, func(x ast.Node) bool {
+			ce, ok := x.(*ast.CallExpr)
+			if !ok {
+				return true
+			}
+			var id *ast.Ident
+			switch f := ce.Fun.(type) {
+			case *ast.Ident:
+				id = f
+			case *ast.SelectorExpr:
+				id = f.Sel
+			}
+			if id == nil {
+				return true
+			}
+			f, ok := info.Uses[id].(*types.Func)
+			if !ok {
+				return true
+			}
+			var targets []*hNode
+			if t := byObj[f]; t != nil {
+				targets = append(targets, t)
+			} else if sig, ok := f.Type().(*types.Signature); ok && sig.Recv() != nil {
+				if it, ok := sig.Recv().Type().Underlying().(*types.Interface); ok {
+					targets = implementers(it, f.Name())
+				}
+			}
+			for _, t := range targets {
+				if !panicHosts[t.id] || !queryReach[t.id] {
+					continue
+				}
+				pos := n.p.Fset.Position(ce.Pos())
+				qc := qCall{Caller: n.id, Callee: t.id, CallerName: n.name, CalleeName: t.name, Where: fmt.Sprintf("%s:%d", strings.TrimPrefix(pos.Filename, repo+"/"), pos.Line)}
+				if hg, ok := hostGuards[t.id]; ok && hg.idx < len(ce.Args) {
+					qc.Guard = hg.meth
+					qc.Arg = strings.Join(strings.Fields(src0(n.p.Fset, ce.Args[hg.idx])), " ")
+					for _, st := range n.fd.Body.List {
+						is, ok := st.(*ast.IfStmt)
+						if !ok || is.Pos() > ce.Pos() || is.End() > ce.Pos() || len(is.Body.List) == 0 {
+							continue
+						}
+						if _, isRet := is.Body.List[len(is.Body.List)-1].(*ast.ReturnStmt); !isRet {
+							continue
+						}
+						ue, ok := is.Cond.(*ast.UnaryExpr)
+						if !ok || ue.Op != token.NOT {
+							continue
+						}
+						gc, ok := ue.X.(*ast.CallExpr)
+						if !ok || len(gc.Args) != 1 {
+							continue
+						}
+						gs, ok := gc.Fun.(*ast.SelectorExpr)
+						if !ok || gs.Sel.Name != hg.meth {
+							continue
+						}
+						if strings.Join(strings.Fields(src0(n.p.Fset, gc.Args[0])), " ") == qc.Arg {
+							qc.Guarded = true
+						}
+					}
+				}
+				qcalls = append(qcalls, qc)
+			}
+			return true
+		})
+	}
+	sort.SliceStable(qcalls, func(i, j int) bool {
+		if qcalls[i].CallerName != qcalls[j].CallerName {
+			return qcalls[i].CallerName < qcalls[j].CallerName
+		}
+		return qcalls[i].Where < qcalls[j].Where
 	})
+
+	// ---- implicit nil dereferences of optional request parts behind a query ----
+	// gogoproto decodes an absent message-typed field (`pagination`, …) to a nil pointer.  Getter METHODS are nil-safe; a FIELD
+	// selection `req.Pagination.Limit` is not.  For every function a query method reaches and every parameter of type
+	// `*Query…Request`: each field selection THROUGH a pointer-typed field of the request, with whether a nil test of that
+	// pointer dominates it (enclosing `if … != nil`, the left operand of the same `&&`, or an earlier `if … == nil { …; return }`).
+	type qDeref struct {
+		Fn      int
+		Func    string
+		Expr    string
+		Ptr     string
+		Guarded bool
+		Where   string
+	}
+	var qderefs []qDeref
+	qreqParams := 0
+	for _, n := range nodes {
+		if !queryReach[n.id] || n.fd.Type.Params == nil {
+			continue
+		}
+		info := n.p.TypesInfo
+		reqs := map[string]bool{}
+		for _, f := range n.fd.Type.Params.List {
+			for _, nm := range f.Names {
+				if tv, ok := info.Types[f.Type]; ok {
+					if pt, ok := tv.Type.(*types.Pointer); ok {
+						tn := hNamed(pt)
+						if strings.HasPrefix(tn, "Query") && strings.HasSuffix(tn, "Request") {
+							reqs[nm.Name] = true
+							qreqParams++
+						}
+					}
+				}
+			}
+		}
+		if len(reqs) == 0 {
+			continue
+		}
+		rootOf := func(e ast.Expr) string {
+			for {
+				switch x := e.(type) {
+				case *ast.SelectorExpr:
+					e = x.X
+				case *ast.Ident:
+					return x.Name
+				default:
+					return ""
+				}
+			}
+		}
+		norm := func(x ast.Node) string { return strings.Join(strings.Fields(src0(n.p.Fset, x)), " ") }
+		var stack []ast.Node
+		ast.Inspect(n.fd.Body, func(x ast.Node) bool {
+			if x == nil {
+				stack = stack[:len(stack)-1]
+				return true
+			}
+			stack = append(stack, x)
+			se, ok := x.(*ast.SelectorExpr)
+			if !ok {
+				return true
+			}
+			inner, ok := se.X.(*ast.SelectorExpr)
+			if !ok || !reqs[rootOf(inner)] {
+				return true
+			}
+			// the outer selection must be a field, the inner expression a pointer
+			if v, ok := info.Uses[se.Sel].(*types.Var); !ok || !v.IsField() {
+				return true
+			}
+			tv, ok := info.Types[inner]
+			if !ok {
+				return true
+			}
+			if _, isPtr := tv.Type.(*types.Pointer); !isPtr {
+				return true
+			}
+			ptr := norm(inner)
+			guarded := false
+			for i := len(stack) - 2; i >= 0 && !guarded; i-- {
+				switch y := stack[i].(type) {
+				case *ast.IfStmt:
+					if i+1 < len(stack) && stack[i+1] == ast.Node(y.Body) && strings.Contains(norm(y.Cond), ptr+" != nil") {
+						guarded = true
+					}
+				case *ast.BinaryExpr:
+					if y.Op == token.LAND && i+1 < len(stack) && stack[i+1] == ast.Node(y.Y) && strings.Contains(norm(y.X), ptr+" != nil") {
+						guarded = true
+					}
+					if y.Op == token.LOR && i+1 < len(stack) && stack[i+1] == ast.Node(y.Y) && strings.Contains(norm(y.X), ptr+" == nil") {
+						guarded = true
+					}
+				}
+			}
+			if !guarded {
+				for _, st := range n.fd.Body.List {
+					is, ok := st.(*ast.IfStmt)
+					if !ok || is.End() > se.Pos() || len(is.Body.List) == 0 {
+						continue
+					}
+					if _, isRet := is.Body.List[len(is.Body.List)-1].(*ast.ReturnStmt); isRet && strings.Contains(norm(is.Cond), ptr+" == nil") {
+						guarded = true
+					}
+				}
+			}
+			pos := n.p.Fset.Position(se.Pos())
+			qderefs = append(qderefs, qDeref{Fn: n.id, Func: n.name, Expr: norm(se), Ptr: ptr, Guarded: guarded,
+				Where: fmt.Sprintf("%s:%d", strings.TrimPrefix(pos.Filename, repo+"/"), pos.Line)})
+			return true
+		})
+	}
+	sort.SliceStable(qderefs, func(i, j int) bool {
+		if qderefs[i].Func != qderefs[j].Func {
+			return qderefs[i].Func < qderefs[j].Func
+		}
+		return qderefs[i].Where < qderefs[j].Where
+	})
+
 	// baseapp facts
 	runTxRecoversFirst, blockFnsRecover, deliverCallsRunTx := false, true, false
 	var blockFns []string
 	txRunner := ""
+	// query transports: ABCI `Query` (deferred recover before the gRPC route is taken) and the gRPC server registration
+	// (the interceptor chain every method handler is wrapped in)
+	abciQueryRecoversFirst, abciQueryRoutesGrpc := false, false
+	var grpcChain []string
+	grpcChainInHandler := false
 	baCalls := map[string][]string{}
 	if baseapp != nil {
 		blockFnsRecover = false
@@ -465,6 +755,72 @@ func extractC20Handlers(cfg *packages.Config, repo, out string) error {
 						txRunner = fd.Name.Name
 						runTxRecoversFirst = recoverAt.IsValid() && recoverAt < firstUse
 					}
+				}
+				if fd.Name.Name == "Query" && hRecv(fd) == "BaseApp" {
+					recoverAt, firstRoute := token.NoPos, token.NoPos
+					for _, st := range fd.Body.List {
+						if ds, ok := st.(*ast.DeferStmt); ok && hasRecover(ds) && !recoverAt.IsValid() {
+							recoverAt = ds.Pos()
+						}
+					}
+					ast.Inspect(fd.Body, func(x ast.Node) bool {
+						if ce, ok := x.(*ast.CallExpr); ok {
+							s := src0(baseapp.Fset, ce.Fun)
+							if strings.HasSuffix(s, ".handleQueryGRPC") || strings.HasSuffix(s, "grpcQueryRouter.Route") ||
+								strings.HasPrefix(s, "handleQuery") {
+								if strings.HasSuffix(s, ".handleQueryGRPC") {
+									abciQueryRoutesGrpc = true
+								}
+								if !firstRoute.IsValid() || ce.Pos() < firstRoute {
+									firstRoute = ce.Pos()
+								}
+							}
+						}
+						return true
+					})
+					abciQueryRecoversFirst = recoverAt.IsValid() && firstRoute.IsValid() && recoverAt < firstRoute
+				}
+				if fd.Name.Name == "RegisterGRPCServer" && hRecv(fd) == "BaseApp" {
+					// the call `ChainUnaryServer(a, b, …)`: qualified names of the interceptors in order; and whether it sits inside
+					// the function literal assigned to a `Handler:` field of a grpc.MethodDesc built in the loop over the methods
+					var stack []ast.Node
+					ast.Inspect(fd.Body, func(x ast.Node) bool {
+						if x == nil {
+							stack = stack[:len(stack)-1]
+							return true
+						}
+						stack = append(stack, x)
+						ce, ok := x.(*ast.CallExpr)
+						if !ok {
+							return true
+						}
+						sel, ok := ce.Fun.(*ast.SelectorExpr)
+						if !ok || sel.Sel.Name != "ChainUnaryServer" {
+							return true
+						}
+						grpcChain = nil
+						for _, a := range ce.Args {
+							nm := strings.Join(strings.Fields(src0(baseapp.Fset, a)), " ")
+							if c, ok := a.(*ast.CallExpr); ok {
+								if cs, ok := c.Fun.(*ast.SelectorExpr); ok {
+									if f, ok := baseapp.TypesInfo.Uses[cs.Sel].(*types.Func); ok && f.Pkg() != nil {
+										nm = f.Pkg().Path() + "." + f.Name() + "()"
+									}
+								}
+							}
+							grpcChain = append(grpcChain, nm)
+						}
+						for i := len(stack) - 1; i >= 0; i-- {
+							if kv, ok := stack[i].(*ast.KeyValueExpr); ok {
+								if k, ok := kv.Key.(*ast.Ident); ok && k.Name == "Handler" {
+									if _, isLit := kv.Value.(*ast.FuncLit); isLit {
+										grpcChainInHandler = true
+									}
+								}
+							}
+						}
+						return true
+					})
 				}
 				switch fd.Name.Name {
 				case "internalFinalizeBlock", "beginBlock", "endBlock", "preBlock":
@@ -610,6 +966,51 @@ func extractC20Handlers(cfg *packages.Config, repo, out string) error {
 	fmt.Fprintf(&sb, "/-- cosmos-sdk baseapp (module cache): the transaction runner installs a deferred `recover()` before it calls the ante handler / `runMsgs` -/\ndef runTxRecoversFirst : Bool := %v\n", runTxRecoversFirst)
 	fmt.Fprintf(&sb, "/-- `deliverTx` (one per transaction of a block) reaches the transaction runner -/\ndef deliverTxCallsRunTx : Bool := %v\n", deliverCallsRunTx)
 	fmt.Fprintf(&sb, "/-- block-level functions of baseapp found: %s; does any of them contain a `recover()`? -/\ndef blockFnsFound : List String := %s\ndef blockFnsRecover : Bool := %v\n", strings.Join(blockFns, ", "), leanStrList(blockFns), blockFnsRecover)
+	// ---- query side ----
+	fmt.Fprintf(&sb, "\n/-- gRPC query methods of every fx-core module (entry kind `query`) -/\ndef queryRoots : List Nat := %s\n\n", listOf(queryRoots))
+	fmt.Fprintf(&sb, "/-- certificate: claimed to contain everything reachable from `queryRoots` in `graph`; %d functions -/\ndef queryReach : Nat := %s\n\n", len(queryReach), maskOf(queryReach))
+	fmt.Fprintf(&sb, "/-- every function of the fx-core module (reachable from an entry point) whose body contains an explicit `panic(…)` -/\ndef panicHosts : List Nat := %s\n\n", func() string {
+		var xs []int
+		for k := range panicHosts {
+			if keep[k] {
+				xs = append(xs, k)
+			}
+		}
+		sort.Ints(xs)
+		return listOf(xs)
+	}())
+	sb.WriteString("/-- every explicit `panic(…)` and `Must…` call in a function reachable from a gRPC query method -/\ndef qsites : List HSite := [\n")
+	for i, s := range qsites {
+		sep := ","
+		if i == len(qsites)-1 {
+			sep = ""
+		}
+		fmt.Fprintf(&sb, "  ⟨%d, %s, %s, %v, %s, %s, %s⟩%s  -- %s\n", s.Fn, q(s.Func), q(s.Kind), s.Kind == "panic", q(s.Expr), leanStrList(s.Conds), q(s.Arg), sep, s.Where)
+	}
+	sb.WriteString("]\n\n")
+	sb.WriteString("/-- every CALL of a function that hosts an explicit panic from a function a gRPC query method reaches: (caller, callee, the test\nthe callee's panic sits behind, the argument handed over, is the same test on the same argument a dominating early return of the caller) -/\ndef qcalls : List QCall := [\n")
+	for i, c := range qcalls {
+		sep := ","
+		if i == len(qcalls)-1 {
+			sep = ""
+		}
+		fmt.Fprintf(&sb, "  ⟨%d, %d, %s, %s, %v⟩%s  -- %s -> %s at %s\n", c.Caller, c.Callee, q(c.Guard), q(c.Arg), c.Guarded, sep, c.CallerName, c.CalleeName, c.Where)
+	}
+	sb.WriteString("]\n\n")
+	fmt.Fprintf(&sb, "/-- number of `*Query…Request` parameters of query-reachable functions that were inspected -/\ndef qreqParams : Nat := %d\n\n", qreqParams)
+	sb.WriteString("/-- every FIELD selection through a pointer-typed field of a `*Query…Request` parameter (an absent optional part decodes to nil) in a\nfunction a gRPC query method reaches: (function, expression, the pointer, is a nil test of that pointer dominating) -/\ndef qderefs : List QDeref := [\n")
+	for i, d := range qderefs {
+		sep := ","
+		if i == len(qderefs)-1 {
+			sep = ""
+		}
+		fmt.Fprintf(&sb, "  ⟨%d, %s, %s, %v⟩%s  -- %s at %s\n", d.Fn, q(d.Expr), q(d.Ptr), d.Guarded, sep, d.Func, d.Where)
+	}
+	sb.WriteString("]\n\n")
+	fmt.Fprintf(&sb, "/-- cosmos-sdk baseapp (module cache): `BaseApp.Query` installs a deferred `recover()` before it routes the request -/\ndef abciQueryRecoversFirst : Bool := %v\n", abciQueryRecoversFirst)
+	fmt.Fprintf(&sb, "/-- `BaseApp.Query` hands gRPC paths to `handleQueryGRPC` -/\ndef abciQueryRoutesGrpc : Bool := %v\n", abciQueryRoutesGrpc)
+	fmt.Fprintf(&sb, "/-- `BaseApp.RegisterGRPCServer`: the interceptors handed to `ChainUnaryServer`, outermost first (qualified by package path) -/\ndef grpcChain : List String := %s\n", leanStrList(grpcChain))
+	fmt.Fprintf(&sb, "/-- the chain is built inside the function literal that becomes the `Handler` of every re-registered method -/\ndef grpcChainInHandler : Bool := %v\n", grpcChainInHandler)
 	sb.WriteString("\nend FxVerif.Gen.C20Handler\n")
 	if err := os.WriteFile(filepath.Join(out, "C20Handler.lean"), []byte(sb.String()), 0o644); err != nil {
 		return err
@@ -627,7 +1028,14 @@ func extractC20Handlers(cfg *packages.Config, repo, out string) error {
 			funcs[n.name] = jf{Block: blockReach[n.id], Ungated: ungated[n.id], Tx: txReach[n.id], Kind: n.kind}
 		}
 	}
-	bz, _ := json.MarshalIndent(map[string]any{"funcs": funcs, "sites": sites, "runTxRecoversFirst": runTxRecoversFirst}, "", " ")
+	qfuncs := map[string]bool{}
+	for _, n := range nodes {
+		if queryReach[n.id] {
+			qfuncs[n.name] = true
+		}
+	}
+	bz, _ := json.MarshalIndent(map[string]any{"funcs": funcs, "sites": sites, "runTxRecoversFirst": runTxRecoversFirst,
+		"qsites": qsites, "qcalls": qcalls, "queryReach": qfuncs, "abciQueryRecoversFirst": abciQueryRecoversFirst, "grpcChain": grpcChain}, "", " ")
 	return os.WriteFile(filepath.Join(out, "c20handler.json"), bz, 0o644)
 }
 
